@@ -110,7 +110,7 @@ void Exec::op_expand(const Op& op) {
 #endif
   if (mi_usable_size(b.p) != b.u) fail_now("expand-usable", "op#%ld usable size changed by mi_expand: %zu -> %zu", opi, b.u, mi_usable_size(b.p));
   verify_blk(s, "after-expand");
-  if (q != nullptr && !b.zmode) { b.n = n2; }   // requested size now n2 (contents pattern still covers usable)
+  if (q != nullptr && !b.zmode) { b.n = n2; b.pristine = false; }   // requested size now n2 (contents pattern still covers usable)
 }
 
 void Exec::op_realloc(const Op& op) {
@@ -186,6 +186,7 @@ void Exec::op_realloc(const Op& op) {
   // zero growth: bytes between previous and new requested size, for zero-initialised chains
   if (zeroing && ozmode && req > n_old) { if (qq != p && was_dirty(qq)) flag(F_ZERO_ON_DIRTY); check_zeroed(qq, n_old, req, f.c_str()); }
   // new state of the slot
+  b.pristine = false;
   b.n = req; b.zmode = (ozmode && zeroing && req >= n_old); b.key = m.next_key++;   // the claim covers monotone growth chains only
   if (align_known) { b.a = ea; b.o = eo; } else if (qq != p) { b.a = 1; b.o = 0; }
   model_fill(s);
